@@ -68,6 +68,46 @@ CLAIMED = {
         text="Generated histories mixing all expressible message types, certificate results (rewards, non-signers, double-signers, order lock/close/reset), really signed certificate-results transactions of a second committee, governance changes, halvenings, faucet and amounts from 0 to 2^64-1: after every block, from a raw scan in big integers, total supply = accounts + pools + stakes, no amount exceeds the total, and the block-to-block change of the total equals scheduled mint + approved DAO mints + faucet top-ups - slash burns - undistributed reward remainder. Held on everything explored.",
         note="The mint/burn accounting is re-derived by the harness from params, events and records (trusted model); no vesting sends, retired committees or DEX batches inside certificate results (those are C20's).",
         tech=PBT + "stateful history generation with a big-integer conservation invariant and an independently re-derived mint/burn ledger"),
+    "C01": dict(
+        cat="exploration",
+        text="N in 4..7 real bft.BFT replicas (real BLS votes) run one height under a generated adversarial schedule: scenario families F1-F6 (lossy/reordering network, equivocating Byzantine leader with double votes, withheld +2/3 certificate re-proposed later as highQC with and without a root-height bump, partial COMMIT delivery, replay of any earlier message/certificate re-signed by Byzantine keys, threshold-boundary stake distributions), Byzantine power strictly < 1/3. After every step: all commits of correct replicas at the height agree, the committed block was proposed, the committing certificate recounts to >= floor(2T/3)+1 in big integers with only true signers, and no correct replica signs two payloads in one view. Held on everything explored.",
+        note="Bounded: n <= 7, one height per case, <= 8 rounds per root height, <= 2 root bumps; committee-changing updates are excluded by the property; the mock controller accepts any well-formed proposal and mirrors the certificate gate of HandlePeerBlock.",
+        tech=PBT + "generated adversarial schedules / Byzantine scenario families against safety invariants over the recorded history"),
+    "C15": dict(
+        cat="exploration",
+        text="Bounded liveness on a harness-owned clock: any generated C01-style adversarial prefix (plus conflicting locks and partitions) is cut at a generated point (GST); afterwards correct replicas (> 2/3) fire at now + WaitTime(phase, round), messages between correct replicas arrive within a generated delta below the smallest phase timeout, Byzantine validators (< 1/3) are silent, equivocate or inflate pacemaker rounds. Every correct replica must commit within r_sync + B + 1 rounds after GST (B = suffix rounds whose predicted leader is Byzantine; r_sync calibrated once over > 20 000 cases and frozen at 2) - plus a stated allowance when replicas are spread over rounds at GST. Held on everything explored.",
+        note="Decides the bounded form only: not 'eventually' on real timers; timeouts restricted to a ratio <= 2 (the code re-aligns replicas in time only through wait-time growth); one open known finding (locked proposal loses its evidence) is excluded by construction and printed as KNOWN-FINDING.",
+        tech=PBT + "adversarial prefix + virtual-time discrete-event suffix with a calibrated round bound"),
+    "C02": dict(
+        cat="exploration",
+        text="From valid (block, certificate) pairs produced by real signing on real controller nodes the generator derives attacker candidates (signer subsets at threshold and threshold-1 under weighted stakes, unsigned/padding bitmap bits, wrong bitmap length, aggregates over re-targeted payloads for every header field singly and in pairs, PROPOSE_VOTE certificate presented as commit certificate, certificate attached to another block/height, swapped results, certificate of another committee, garbled signatures, omitted block/results, tampered last certificate in the next block). HandlePeerBlock on a second node must commit iff an independent semantic evaluator (who really signed which fields, big-integer power recount at the certificate's root height) says so; on rejection committed and working state are unchanged and the valid pair is still accepted. Held on everything explored.",
+        note="Fast-sync (checkpoint-only verification) is excluded by the property; BFT/listeners are replaced by direct calls in production order (trusted harness wiring, listed in evidence assumptions).",
+        tech=PBT + "adversarial candidate derivation from honestly signed certificates against an independent acceptance oracle"),
+    "C03": dict(
+        cat="exploration",
+        text="Generated 3-12 block histories (failing transactions on the proposer path, >= 16 state writes per block, certificate results with non-signers; a third on the nested chain of a two-chain setup) are executed on independent real controller nodes along the paths propose / validate / commit-with-cached-result / commit-replay / sync-replay / restart, with generated differences in irrelevant state (block cache warm or purged, signature cache cold or warm, discarded speculative validations, GOMAXPROCS 1/4/16): headers must be byte-identical, certificate results equal, the certificate each node indexed byte-identical to the certified one, and the state root equal to the reference commitment of a full state scan. A second differential demands identical verdicts of single, cached and batch signature verification for generated hostile (key, message, signature) triples. Held on everything explored.",
+        note="Goroutine schedules of the parallel tree commit and indexer are sampled (repetition, GOMAXPROCS), not enumerated; block time comes from canopy's wall clock, so comparisons are between nodes within one run.",
+        tech=PBT + "multi-path differential execution on independent nodes + reference state commitment; signature-path differential"),
+    "C11": dict(
+        cat="exploration",
+        text="Three real controller nodes: A's mempool receives a generated mix (valid, stateful-failing, conflicting, oversize relative to a lowered block size, unusually encoded, hostile values); every proposal A builds must validate on B (and A must be able to build one); both commit through HandlePeerBlock with a really signed certificate; after k heights a fresh node is fed A's archived block+certificate for every height (also after A restarted, after RPC-style header lookups on cold heights, with nodes holding different certificate versions) and must reach the same block hashes and state roots; served bytes must equal the certified bytes. Held on everything explored.",
+        note="finishSyncing, listeners and the Sync loop are not driven (direct calls in production order); checkpoint heights >= 100 not reached.",
+        tech=PBT + "generated mempool contents, proposer/replica/fresh-sync differential on real controller nodes"),
+    "C07": dict(
+        cat="exploration",
+        text="(a) transaction level: generated blocks with transactions engineered to fail late (after fee deduction / partial transfers), back-to-back failures, failures next to valid transactions on the same account/pool/params: proposer-mode ApplyBlock must never fail as a whole, included and failed lists partition the input in order, and a fork executing exactly the included transactions in replica mode must give the same header hash, state scan, results and events; (b) block level: a real controller node is offered generated bad proposals / peer blocks / sync blocks (wrong header fields, wrong results, failing transaction inside, bad last certificate, bad certificate) interleaved with good ones while a twin sees only the good ones: after every rejection committed version, state, working state and indexes equal the twin's and both stay in lock-step. Held on everything explored.",
+        note="No transaction emits events or slashes and then fails in a well-formed state (code reading), so those two restore paths are not observable from transactions; same-block byte-identical duplicates are excluded (the mempool de-duplicates by hash).",
+        tech=PBT + "metamorphic relation (block with vs. without its failing transactions) + twin-node differential under generated rejections"),
+    "C05": dict(
+        cat="exploration",
+        text="For a generated world (custodial and non-custodial validators and delegates with outputs held by every key type, orders, multisig accounts) each round submits at most one authorized transaction and 2-7 forbidden ones: wrong signers in 9 roles (incl. address-prefix look-alikes), 19 single-field tamperings after signing, multisig attacks (below threshold, duplicate member, padding), relabelled RLP wrappers, signature-cache aliases, same-block revocations. Oracle = an independent authorization table written from the message documentation + signature validity by construction: forbidden transactions must fail and leave the state equal to a twin's, executed ones may only touch ownership-bearing keys of their signer or target; every candidate is also offered to CheckTx on the single-verification path, with cold and warm signature cache. Held on everything explored.",
+        note="Certificate-results transactions are covered by C19/C20/C14, not generated here; the authorization table is the harness' reading of fsm/message.md and validator.md (trusted).",
+        tech=PBT + "independent authorization-table oracle + twin-state differential over generated (signer, owner, tampering) combinations"),
+    "C06": dict(
+        cat="exploration",
+        text="Each case includes one valid transaction T (10 message types x 7 signer kinds incl. multisig and both RLP forms, several chain/network ids) and then offers variants derivable without any key: identical copy, protobuf re-encodings (explicit defaults, reordering, non-minimal varints/tags/lengths, duplicated/shadowed/split fields, nested re-encodings), alternative public-key encodings, malleated signatures, tampered RLP wrappers - in T's own block, in later blocks, around both edges of the creation-height window (beyond height 4320), and on chains with another chain or network id; plus generated window-edge and RLP.V2 nonce-floor histories. Oracle = ledger model: the signed content takes effect exactly once; every variant is reported failed and the state equals a twin fork that never saw the variants. Held on everything explored.",
+        note="Heights above 4320 are reached by fast-forwarding the store with synthetic empty versions (no per-block minting there); at block height 1 neither window nor hash lookup is enforced by the code (stated rule).",
+        tech=PBT + "metamorphic re-encoding / malleation of included transactions against a once-only ledger model and a twin chain"),
 }
 
 REASONS = {}  # property id -> reason when not claimed (default below)
